@@ -23,6 +23,13 @@ def gen_case(rng, i):
         return None
     if rng.random() < 0.12:  # one centre frequency above the Nyquist frequency of the largest time step
         sm["center_frequencies_in_hz"].append(float(1 / (2 * max(arrangement)) * rng.uniform(1.0001, 1.5)))
+    u = rng.random()
+    if u < 0.08:      # an all-zero vertical (dead channel): 0/0 or x/0 must be refused, never reported as a curve
+        k = int(rng.integers(0, nrec)); recs[k]["vt"] = [0.0] * len(recs[k]["vt"])
+    elif u < 0.12:    # an all-zero record
+        k = int(rng.integers(0, nrec))
+        for comp in ("ns", "ew", "vt"):
+            recs[k][comp] = [0.0] * len(recs[k][comp])
     case = dict(family=fam, smoothing=sm, width=float(rng.choice(pg.WIDTHS)), fft=fft, policy=pg.POLICIES[int(rng.integers(0, 3))], records=recs)
     if fam == "trad":
         case["method"] = pg.COMBINE_NAMES[int(rng.integers(0, len(pg.COMBINE_NAMES)))]
@@ -30,6 +37,26 @@ def gen_case(rng, i):
         case["azimuth"] = float(rng.uniform(0, 180))
     else:
         case["pct"] = float(rng.choice([0, 50, 100])); case["azimuths"] = [0.0, 60.0, 120.0]
+    return case
+
+
+def gen_nyquist_case(rng, i):
+    """mixed time steps with one centre frequency just above the Nyquist frequency of the COARSEST kept record, and a
+    smoothing window wide enough to still see samples there (otherwise 0/0 hides a missing guard)"""
+    fam = ["trad", "saz", "rot"][i % 3]
+    d_small, d_big = sorted(float(x) for x in rng.choice(pg.DTS, 2, replace=False))
+    arrangement = [d_big, d_small, d_small, d_big][: int(rng.integers(2, 5))]
+    recs = [pg.gen_record(rng, n=int(rng.integers(40, 90)), dt=d, scale=1.0) for d in arrangement]
+    fny = 1 / (2 * d_big)
+    fcs = sorted([float(fny * rng.uniform(0.3, 0.9)), float(fny * rng.uniform(0.5, 0.95)), float(fny * rng.uniform(1.0005, 1.08))])
+    sm = dict(operator="konno_and_ohmachi", bandwidth=float(rng.choice([8.0, 10.0, 12.0])), center_frequencies_in_hz=fcs)
+    case = dict(family=fam, smoothing=sm, width=0.1, fft=dict(n=None), policy=pg.POLICIES[0], records=recs)
+    if fam == "trad":
+        case["method"] = "squared_average"
+    elif fam == "saz":
+        case["azimuth"] = 30.0
+    else:
+        case["pct"] = 50.0; case["azimuths"] = [0.0, 60.0, 120.0]
     return case
 
 
@@ -54,6 +81,7 @@ def run(ctx):
     rng = np.random.default_rng(ctx.seed)
     n = ctx.budget(70, 900)
     cases = [c for c in (gen_case(rng, i) for i in range(n)) if c is not None]
+    cases += [gen_nyquist_case(rng, i) for i in range(ctx.budget(12, 120))]
     outs = run_driver([pg.model_line(c) for c in cases])
     for c, o in zip(cases, outs):
         im = pg.run_impl(c)
